@@ -551,6 +551,32 @@ def treatAs (tb : Tables) (xsd11 : Bool) (t : Ty) (v : List Item) : Except Err (
   | .empty => if v.isEmpty then .ok [] else .error .XPDY0050
   | t => treatLoop t.tokOcc (instItem tb xsd11 t) 0 v []
 
+/-! ## judgements whose operand is an expression that may raise
+
+`self[0].select(context)` is a generator: the operand of `instance of` / `treat as` is evaluated lazily inside the
+loops of l.236-330.  An error raised by the operand is no error of the judgement: it leaves the loops unchanged
+(the `try` blocks enclose `is_instance` only).  `code` numbers an error code of the operand (XPDY0050 of a nested
+`treat as`, XPTY0004 of a function call, FORG0001 of a cast …). -/
+
+/-- outcome of a judgement on an operand expression -/
+inductive JRes
+  | ok (b : Bool)                 -- instance of: true / false;  treat as: `ok true` = the operand's value is returned
+  | err (e : Err)                 -- raised by the judgement itself
+  | operandErr (code : Nat)       -- raised by the operand, propagated unchanged
+  deriving DecidableEq, Repr
+
+def instanceOfOp (tb : Tables) (xsd11 : Bool) (t : Ty) : Except Nat (List Item) → JRes
+  | .error c => .operandErr c
+  | .ok v => match instanceOf tb xsd11 t v with
+    | .ok b => .ok b
+    | .error e => .err e
+
+def treatAsOp (tb : Tables) (xsd11 : Bool) (t : Ty) : Except Nat (List Item) → JRes
+  | .error c => .operandErr c
+  | .ok v => match treatAs tb xsd11 t v with
+    | .ok _ => .ok true
+    | .error e => .err e
+
 /-! ## names and namespaces
 
 A name is a number `100 * n + local`.  In a *node* `n` is the namespace of its expanded QName (0 = no namespace,
@@ -925,54 +951,24 @@ def Tys.anyMentionsFunc : Tys → Bool
   | .cons a as => a.mentionsFunc || as.anyMentionsFunc
 
 mutual
-/-- trigger of F18p: sequence types that the 3.1 *parser* rejects (XPST0003) or records with a corrupted
-`source`, found by enumeration (see docs/C18.md).  `member` = the type is the member type of an array
-test or the value type of a map test, `arr` = of an array test, `infunc` = it occurs inside a typed
-function test.  Over-approximates (it is only used to tag a disagreement of `instance of` / `treat as`). -/
-def Ty.gapAt (member arr infunc : Bool) : Ty → Bool
-  | .empty => arr
-  | .leaf l o =>
-    (match l with
-     | .kind .attribute _ => member || infunc
-     | .kindT _ _ _ _ => member || infunc      -- a kind test with a type argument nested in array / map / function tests
-     | .kind .namespace _ => infunc
-     | .kind .pi (.name _) => infunc
-     | _ => false)
-    || (member && o == .opt && (l.isKindTest || l == .funcAny || l == .mapAny))
-    || (l == .funcAny && o != .one && (member || infunc))
-  | .func a r =>
-    -- is_sequence_type (l.230-239) validates a nested typed function test only if `function(` occurs in its
-    -- last argument (or in a leading `function(*)` alone)
-    (infunc && a.anyMentionsFunc) || a.gapAll || r.gapAt false false true
-  | .map _ v o => (member && o == .opt) || v.gapAt true false infunc
-  | .array m _ => m.gapAt true true infunc
-def Tys.gapAll : Tys → Bool
-  | .nil => false
-  | .cons a as => a.gapAt false false true || as.gapAll
-end
-
-def Ty.parserGap (t : Ty) : Bool := t.gapAt false false false
-
-mutual
-/-- what is left of F18p with the `fix:` commits of branch fix-c18-5 (member / value types parsed as sequence types,
-occurrence indicators kept in the text of function(*) / attribute(..), is_sequence_type knowing attribute(N),
-namespace-node(), processing-instruction(N), element(N, T?)): a typed function test nested in a typed function
+/-- trigger of F18p: legal sequence types that the 3.1 parser still rejects with XPST0003 (found by enumerating
+1 060 nestings, see docs/C18.md; `infunc` = the type occurs inside a typed function test): a typed function test nested in a typed function
 test whose arguments mention `function(` (is_sequence_type validates that only in the last argument), and a kind
 test with a type argument inside a typed function test (is_sequence_type splits the argument list at every ', ').
-Over-approximates.  `Ty.gapAt` above is the trigger on the tree without those commits. -/
-def Ty.gap2At (infunc : Bool) : Ty → Bool
+Over-approximates (it only tags a disagreement of `instance of` / `treat as` / a parameter declaration). -/
+def Ty.gapAt (infunc : Bool) : Ty → Bool
   | .empty => false
   | .leaf (.kindT _ _ _ _) _ => infunc     -- its text contains ', ': is_sequence_type cuts the argument list there
   | .leaf _ _ => false
-  | .func a r => (infunc && a.anyMentionsFunc) || a.gap2All || r.gap2At true
-  | .map _ v _ => v.gap2At infunc
-  | .array m _ => m.gap2At infunc
-def Tys.gap2All : Tys → Bool
+  | .func a r => (infunc && a.anyMentionsFunc) || a.gapAll || r.gapAt true
+  | .map _ v _ => v.gapAt infunc
+  | .array m _ => m.gapAt infunc
+def Tys.gapAll : Tys → Bool
   | .nil => false
-  | .cons a as => a.gap2At true || as.gap2All
+  | .cons a as => a.gapAt true || as.gapAll
 end
 
-def Ty.parserGap2 (t : Ty) : Bool := t.gap2At false
+def Ty.parserGap (t : Ty) : Bool := t.gapAt false
 
 /-- documents have at most one element child (XDM documents built from well-formed XML have exactly one) -/
 def docsWellFormed : List Item → Bool
